@@ -28,34 +28,74 @@ PAD_LOOPS = ['verif_vbh_1.0:8', 'verif_vbh_1.1:8', 'verif_vbh_1.2:8', 'verif_vbh
 
 BODY_FUNCS = [
     dict(name='validate_body_helper', file=VAL, status='enforced',
-         contract='memory safety for a buffer of any length (<= _DBUS_STRING_MAX_LENGTH) with NOTHING readable at or after end; '
-                  'VALID => p <= *new_p <= end; depth > 64 => NESTED_TOO_DEEPLY; recursion with total_depth + 1; progress; termination of all loops; '
-                  '3 loop contracts + 5 padding loops unwound 8x (width-bounded: alignment <= 8); recursive calls bound to this contract'),
-    dict(name='_dbus_type_get_alignment/_dbus_unpack_uint32/_dbus_first_type_in_signature/map_type_char_to_type', file=BASIC, status='inlined', note='real code, loop-free, own _dbus_asserts are obligations'),
-    dict(name='_dbus_string_init_const_len/_dbus_string_get_length/_dbus_string_get_byte', file=STR, status='inlined', note='real code, loop-free, own _dbus_asserts are obligations'),
+         contract='memory safety for a buffer [p, end) of any length (<= _DBUS_STRING_MAX_LENGTH) at any alignment; no read at or after end; '
+                  'VALID => p <= *new_p <= end, !VALID => *new_p untouched; depth > 64 => NESTED_TOO_DEEPLY; recursion with total_depth + 1, same end and byte order; '
+                  'progress (one value >= 1 byte); termination of all 8 loops; all _dbus_asserts; '
+                  '3 loop contracts + 5 padding loops unwound 8x (width-bounded: alignment <= 8, unwinding assertions proved); recursive calls bound to this contract'),
+    dict(name='_dbus_type_get_alignment', file=BASIC, status='inlined', note='real code, loop-free, its assert_not_reached is an obligation'),
     dict(name='dbus_type_is_valid/dbus_type_is_fixed', file=SIG, status='inlined', note='real code, loop-free'),
     dict(name='_dbus_type_reader_get_current_type/_get_element_type/_recurse/_next/_init_types_only', file=REC, status='stub',
          note='abstract types-only reader (current type, element type) per the API documentation; assumed'),
-    dict(name='_dbus_validate_path/_dbus_string_validate_utf8/_dbus_validate_signature_with_reason', file=VAL + ', ' + STR, status='replaced',
-         note='C16 contracts (result range, accept => length facts, VALID signature starts with an opening type code); precondition weakened to '
-              '[start,start+len) readable, see C01.p.range.*'),
+    dict(name='_dbus_string_init_const_len/_dbus_string_get_length', file=STR, status='stub',
+         note='ghost record (identity, data pointer, length) of the one constant string alive; preconditions = the functions own _dbus_asserts'),
+    dict(name='_dbus_first_type_in_signature (+ _dbus_string_get_byte, map_type_char_to_type)', file=BASIC, status='stub',
+         note='reads the byte through the ghost record, same mapping and the same two assertions as the real code'),
+    dict(name='_dbus_unpack_uint32', file=BASIC, status='replaced',
+         note='precondition: 4-aligned (its own assertion) and the 4 bytes inside [p, end); value arbitrary (value contract enforced in the C02 units)'),
+    dict(name='_dbus_validate_path/_dbus_string_validate_utf8', file=VAL + ', ' + STR, status='replaced',
+         note='result 0/1, TRUE => length facts; precondition only [start,start+len) readable: enforced under exactly that precondition by C01.p.range.path/.utf8 (grammar: C16)'),
+    dict(name='_dbus_validate_signature_with_reason', file=VAL, status='replaced',
+         note='VALID => len <= 255 and a first byte that opens a complete type; precondition len + 1 readable bytes (memory safety on such a string: C16.sig.depth, P; first-byte fact: C16.sig.* B up to 8 bytes)'),
     dict(name='_dbus_warn_return_if_fail', file='dbus/dbus-internals.c', status='stub', note='must be unreachable (asserted)'),
 ]
 BODY_ASSUME = [
-    'harness precondition: p and end in one heap object of exactly (offset of p) + (end - p) bytes, 0 <= end - p <= _DBUS_STRING_MAX_LENGTH, total_depth >= 0, new_p NULL or writable',
+    'harness precondition: p and end in one heap object of (offset of end) + 7 bytes, 0 <= end - p <= _DBUS_STRING_MAX_LENGTH, offset of end <= 2^32, p at ANY offset, total_depth >= 0, new_p NULL or writable; nothing at or after end is assumed readable',
+    '7 addressable bytes after end (DBusString allocation padding: allocated >= len + 8, align_offset 0) are needed for POINTER ARITHMETIC only: the function forms and compares pointers up to end + 7 (7 sites); none of these bytes is read',
+    'reads below end: CBMC bounds every access by end + 7; "below end" is stated for the 10 byte-read sites of the function (injected ghost statements, post.noread), every _dbus_unpack_uint32 call and every validator call (stub preconditions)',
     'CBMC pointer model: _DBUS_ALIGN_ADDRESS aligns the offset inside the object, i.e. object base addresses are 8-aligned (malloc / DBusString)',
     'types-only DBusTypeReader behaves as documented (get_current_type pure and in the 16 type codes or INVALID; next returns FALSE exactly at the end; recurse into an array gives the element type); dbus-marshal-recursive.c is not verified here',
     'validated signatures have no empty struct / dict entry (a reader recursed into one starts at a type): used only for post.progress and the decreases clauses',
-    'a VALID signature of positive length starts with one of y b n q i u x t d s o g h v a ( (C16: enforced only up to 8 bytes, B)',
-    'the three string validators read only [start, start+len) (C16 enforces their memory safety with one more readable byte; C01.p.range.* close that gap for path and UTF-8)',
+    'a VALID signature of positive length starts with one of y b n q i u x t d s o g h v a ( (C16: exact grammar enforced only up to 8 bytes, B)',
+    'hybrid route: the frame (assigns) of validate_body_helper itself is checked inside its loops only (loop assigns clauses); outside the loops the function writes *new_p and locals only (by inspection)',
 ]
 
-UNITS = [
-    dict(name='C01.p.body', props=['C01', 'C10'], kind='P', route='hybrid', tier='thorough', entry='harness',
-         tus=[dict(file=VAL, include_as='VERIF_TU', overlay='c01p_body.ovl'), dict(file=BASIC), dict(file=SIG)],
-         harness='harness/c01p_body.c', extra_sources=['stubs/c01p_stubs.c', ASSERT],
-         replace_calls=READER_CALLS, unwindset_pre=PAD_LOOPS, allow_skip_msg=True,
-         timeout=2700, mem_gb=28, expect_s=900,
-         must_have=['Check invariant after step for loop verif_vbh_1', 'post.range', 'precondition of validate_body_helper (recursive call): total_depth + 1'],
-         functions=BODY_FUNCS, assumptions=BODY_ASSUME),
-]
+# The proof is split over the type code seen at the loop head (4 classes; obligation cases.cover in every unit shows that they
+# cover all codes).  Measured: the unsplit unit (VERIF_CASE_ID 0, no VERIF_CASE) is green as well but needs 17-32 min (1.6 M
+# variables, one 13-minute UNSAT call); it is kept as role='finder' (not part of any check) for reference.
+CASES = [('fixed', 1, 'VERIF_CLASS_FIXED', 'y b n q i u h x t d'), ('string', 2, 'VERIF_CLASS_STRING', 's o g'),
+         ('array', 3, 'VERIF_CLASS_ARRAY', 'a'), ('nested', 4, 'VERIF_CLASS_NESTED', 'v r e')]
+
+
+def body_unit(suffix, case_id, case_macro, codes):
+    u = dict(name='C01.p.body' + ('.' + suffix if suffix else '.all'), props=['C01', 'C10'], kind='P', route='hybrid', tier='thorough', entry='harness',
+             tus=[dict(file=VAL, include_as='VERIF_TU', overlay='c01p_body.ovl'), dict(file=BASIC), dict(file=SIG)],
+             harness='harness/c01p_body.c', extra_sources=['stubs/c01p_stubs.c', ASSERT],
+             defines=(['VERIF_CASE_ID=%d' % case_id, 'VERIF_CASE=%s' % case_macro] if case_id else []),
+             replace_calls=READER_CALLS, unwindset_pre=PAD_LOOPS, allow_skip_msg=True,
+             timeout=2700, mem_gb=28, expect_s=(400 if case_id else 1500), want_trace=False,
+             must_have=['Check invariant after step for loop verif_vbh_1', 'post.range', 'cases.cover', 'precondition of validate_body_helper (recursive call): total_depth + 1'],
+             functions=BODY_FUNCS,
+             assumptions=BODY_ASSUME + (['case split: this unit covers the executions in which the loop head of validate_body_helper sees one of the type codes %s (or the end of the signature); '
+                                         'the units C01.p.body.fixed/.string/.array/.nested together cover all executions (cases.cover)' % codes] if case_id else []))
+    if not case_id:
+        u['role'] = 'finder'
+    return u
+
+
+UNITS = [body_unit(*c) for c in CASES] + [body_unit('', 0, None, 'all')]
+
+# ---- the two validators called before the terminating NUL has been checked stay inside [start, start+len) ----
+RANGE_ASSUME = ['DBusString fields satisfy DBUS_GENERIC_STRING_PREAMBLE; the data object has EXACTLY len bytes (no terminator, nothing readable at str[len])']
+UNITS.append(dict(name='C01.p.range.path', props=['C01', 'C10'], kind='P', route='dfcc', entry='harness', enforce=['_dbus_validate_path'],
+                  tus=[dict(file=VAL, overlay='validate_names.ovl'), dict(file=STR)], harness='harness/c01p_range.c', extra_sources=[ASSERT],
+                  timeout=900, expect_s=60, tier='thorough', must_have=['Check invariant after step for loop', 'Check ensures clause of contract'],
+                  functions=[dict(name='_dbus_validate_path', file=VAL, status='enforced',
+                                  contract='memory safety on a data object of exactly len bytes (no NUL terminator); TRUE => 1 <= len <= string length - start (what the C01.p.body stub assumes)')],
+                  assumptions=RANGE_ASSUME))
+UNITS.append(dict(name='C01.p.range.utf8', props=['C01', 'C10'], kind='P', route='dfcc', entry='harness', enforce=['_dbus_string_validate_utf8'],
+                  tus=[dict(file=STR, overlay='string_utf8.ovl')], harness='harness/c01p_range.c', extra_sources=[ASSERT], defines=['VERIF_RANGE_UTF8=1'],
+                  unwindset_pre=['_dbus_string_validate_utf8.1:7'], timeout=3000, expect_s=400, tier='thorough',
+                  must_have=['Check invariant after step for loop', 'Check ensures clause of contract'],
+                  functions=[dict(name='_dbus_string_validate_utf8', file=STR, status='enforced',
+                                  contract='memory safety on a data object of exactly len bytes (no NUL terminator); TRUE => len <= string length - start (what the C01.p.body stub assumes)')],
+                  assumptions=RANGE_ASSUME))
